@@ -48,10 +48,20 @@ MAXTASKSPERCHILD = 4
 XML_NASTY = ["", " ", "abc", "2020-13-01", "2020-01-01T24:61:00", "24:61", "1e999999", "9" * 100000,
              "-", "+", ".", "NaN", "INF", "####", "QUJD=", "QUJ", "zz", "0x", " ", "１２",
              "P", "PT", "P1Y", "-P", "true ", "TRUE", "nil", "00000000-0000-0000-0000-00000000000",
-             "\t\n", "<", "]]>", "퟿", "a" * 70000]
+             "\t\n", "<", "]]>", "퟿", "a" * 70000,
+             # range edges of the native types behind the lexical spaces
+             "P99999999999Y", "P1Y99999999999M", "-P999999999999D", "PT1e5S", "PT99999999999999999999S",
+             "99999-01-01", "0000-01-01", "-0001-01-01", "10000-01-01T00:00:00Z",
+             "9999-12-31T23:59:59.9999999Z", "0001-01-01T00:00:00+14:00", "9999-12-31T23:59:59-14:00",
+             "2020-01-01T00:00:00+99:99", "24:00:00", "23:59:60", "23:59:59.9999999", "2020/13/45",
+             "31.02.2020 10:00", "1e400", "-1e400", "1" + "0" * 400, "0." + "0" * 400 + "1"]
 DOC_NASTY = ["", " ", "abc", "2020-13-01", "24:61", "1e999999", "9" * 5000, 1e308, -1e308, 2 ** 70,
              -2 ** 70, 1.5, True, False, None, [], {}, [[]], {"": None}, "\x00", "\ud800",
-             "QUJD=", "zz", "P", 0, -1, [None], {"a": {"a": {"a": {}}}}, "0" * 70000]
+             "QUJD=", "zz", "P", 0, -1, [None], {"a": {"a": {"a": {}}}}, "0" * 70000,
+             "P99999999999Y", "-P999999999999D", "PT99999999999999999999S", "99999-01-01", "0000-01-01",
+             "10000-01-01T00:00:00Z", "9999-12-31T23:59:59.9999999Z", "0001-01-01T00:00:00+14:00",
+             "9999-12-31T23:59:59-14:00", "24:00:00", "23:59:60", "2020/13/45", "1e400", 2.0, 1e20,
+             10 ** 400, -10 ** 400, float("inf"), float("nan")]
 
 
 def cases(tier):
@@ -60,7 +70,9 @@ def cases(tier):
 
     def tag(fam):
         return lambda t: {"fam": fam, "base": t[0], "muts": [list(x) for x in t[1]],
-                          "part": t[2], "wsgi": t[3]}
+                          "part": t[2], "wsgi": t[3],
+                          # struct cases only: date/time types take a custom strptime format
+                          "fmt": t[2] == "struct" and t[1][0][0] % 5 == 0}
     parts = st.sampled_from(["prefix", "bytes", "struct", "struct", "struct"])
     return st.one_of(
         st.tuples(c01.cases(tier), mut, parts, st.booleans()).map(tag("xml")),
@@ -68,6 +80,29 @@ def cases(tier):
         st.tuples(c02.cases(tier), mut, parts, st.booleans()).map(tag("dict")),
         st.tuples(c02.cases(tier), mut, parts, st.booleans()).map(tag("dict")),
         st.tuples(c03.cases(tier), mut, parts, st.just(True)).map(tag("http")))
+
+
+FORMATS = {"Date": "%Y/%m/%d", "DateTime": "%d.%m.%Y %H:%M", "Time": "%H-%M"}
+
+
+def with_formats(base):
+    """copy of the base case in which every Date/DateTime/Time type carries a custom
+    (strptime) format; the 'valid' request then is just a starting point, not valid"""
+    base = copy.deepcopy(base)
+
+    def walk(t):
+        if not isinstance(t, dict):
+            return
+        if t.get("k") == "prim" and t.get("t") in FORMATS:
+            t.setdefault("f", {})["format"] = FORMATS[t["t"]]
+        if "of" in t:
+            walk(t["of"])
+    for c in base["U"]["classes"]:
+        for _, t in c["fields"]:
+            walk(t)
+    for _, t in base["m"]["args"]:
+        walk(t)
+    return base
 
 
 # ---------------------------------------------------------------- environments
@@ -78,6 +113,8 @@ class Target(object):
         from spyne.server.wsgi import WsgiApplication
         self.case = case
         fam, base = case["fam"], case["base"]
+        if case.get("fmt"):
+            base = with_formats(base)
         self.fam = fam
         if fam == "xml":
             self.E = c01.Env(base)
@@ -131,8 +168,19 @@ class Target(object):
             return self._wsgi_result(res)
         if self.wsgi is not None:
             cts = [self.ct, self.ct.split(";")[0], self.ct.split(";")[0] + "; charset=latin-1",
-                   "application/octet-stream", None, self.ct.split(";")[0] + "; charset=utf-16"]
+                   "application/octet-stream", None, self.ct.split(";")[0] + "; charset=utf-16",
+                   self.ct.split(";")[0] + "; charset=bogus", self.ct.split(";")[0] + "; charset=",
+                   "multipart", "multipart-noid", self.ct.split(";")[0] + "; charset=\"utf-8",
+                   "multipart/related", ";;;", self.ct.split(";")[0] + "; boundary"]
             ct = cts[ct_variant % len(cts)] if ct_variant else self.ct
+            if ct in ("multipart", "multipart-noid"):
+                # SOAP with attachments: the request as the root part + one attachment
+                att = (b"Content-Type: application/octet-stream\r\n" +
+                       (b"" if ct == "multipart-noid" else b"Content-ID: <att1>\r\n") +
+                       b"\r\nabc")
+                data = (b"--bnd\r\nContent-Type: text/xml\r\nContent-ID: <root>\r\n\r\n" + data +
+                        b"\r\n--bnd\r\n" + att + b"\r\n--bnd--\r\n")
+                ct = 'multipart/related; boundary=bnd; type="text/xml"; start="<root>"'
             res = drive.wsgi_call(self.wsgi, drive.environ("POST", "/", "", data, content_type=ct))
             return self._wsgi_result(res)
         out = drive.server_call(self.app, data)
@@ -426,7 +474,9 @@ def run_case(case, rec):
         return fails
     # the unmutated request must be accepted (otherwise this is not a C10 base)
     base_res = T.send(T.valid)
-    if base_res[0] is not None or base_res[1] is not None or not base_res[2]:
+    if case.get("fmt"):
+        rec.count("custom-format-cases")
+    elif base_res[0] is not None or base_res[1] is not None or not base_res[2]:
         rec.case(case, classes=["base-not-accepted:" + T.fam])
         return fails
     part = case["part"]
@@ -446,7 +496,7 @@ def run_case(case, rec):
         mutants = {"xml": xml_struct_mutants, "dict": dict_struct_mutants,
                    "http": http_struct_mutants}[T.fam](T, case["muts"])
     for i, (kind, data) in enumerate(mutants):
-        judge(T, kind, data, T.send(data, ct_variant=(i % 7 if case.get("wsgi") else 0)), fails, labels, rec)
+        judge(T, kind, data, T.send(data, ct_variant=(i % 15 if case.get("wsgi") else 0)), fails, labels, rec)
     rec.count("requests:" + T.fam, len(mutants))
     reached = [l for l in labels if not l[1].endswith(("XMLSyntaxError", "JsonDecodeError", "YamlDecodeError",
                                                         "MessagePackDecodeError"))]
